@@ -27,4 +27,5 @@ package microreader
 //@   safe
 //@   loop 1:
 //@     invariant 1 <= offset && offset <= fileSize && int64(len(data)) == fileSize
+//@     decreases int(fileSize - offset)
 //@ end
